@@ -12,7 +12,7 @@ var propC17 = &simProp{
 	ID: "C17",
 	Profile: sim.Profile{
 		Name: "C17", Voters: [2]int{1, 5}, NonVoters: [2]int{0, 2}, Phases: [2]int{2, 6},
-		Patterns: []string{"P2", "P2", "P9", "P9", "P13", "P13", "P13", "P10", "P10", "P21", "P21", "P25", "P25", "P31", "P31", "reads", "reads", "reads", "free", "free", "P1", "P3", "P4", "stopstart", "P11"},
+		Patterns: []string{"P2", "P2", "P9", "P9", "P13", "P13", "P13", "P10", "P10", "P21", "P21", "P25", "P25", "P36", "P36", "P31", "P31", "reads", "reads", "reads", "free", "free", "P1", "P3", "P4", "stopstart", "P11"},
 		Writes:   true, LeaseReads: true, Crashes: true, Stops: true, EpilogueET: 6, Prologue: true, FSMDelays: true, Membership: true, BoundedNet: true,
 		Timeouts: []int{100, 500, 1000},
 		// (ET ms, LD ms, max one-way delay us) with LD + delay < ET
